@@ -9,6 +9,10 @@ import Optyx.Lemmas.GradNodesVec
 namespace Optyx.Py.Jac
 open Optyx Optyx.Py
 
+theorem hasName_cons (x : String) (v : Var) (t : List Var) :
+    hasName x (v :: t) = (v.name == x || hasName x t) := by
+  simp [hasName]
+
 /-! ### dictGet -/
 
 theorem dictGet_none_iff {β : Type} {x : String} {kvs : List (Var × β)} :
@@ -29,7 +33,9 @@ theorem dictGet_none_iff {β : Type} {x : String} {kvs : List (Var × β)} :
       have ht := ih.mp h
       by_cases hk : k.name = x
       · simp [hk]
-      · simp [hk, ht]
+      · simp only [hk, beq_iff_eq, ite_false, List.mem_cons, forall_eq_or_imp, ne_eq, not_false_eq_true,
+          true_and, true_iff]
+        exact ht
 
 theorem dictGet_some {β : Type} {x : String} {kvs : List (Var × β)} {r : β}
     (h : dictGet x kvs = some r) : ∃ k, (k, r) ∈ kvs ∧ k.name = x := by
@@ -76,7 +82,9 @@ theorem dictGet_zip {β : Type} {x : String} {vs : List Var} (hnd : (names vs).N
         simp
       · cases hf : findName x t with
         | none => simp [h]
-        | some i => simp [h]
+        | some i =>
+          simp only [h, beq_iff_eq, ite_false, Option.map_some, List.getElem?_cons_succ]
+          cases cs'[i]? <;> rfl
 
 theorem dictGet_zipIdx {x : String} {vs : List Var} (hnd : (names vs).Nodup) (k : Nat) :
     dictGet x (vs.zipIdx k) = (findName x vs).map (· + k) := by
@@ -109,8 +117,12 @@ theorem nameIdx_none_iff {x : String} {V : List Var} : nameIdx x V = none ↔ x 
     | some r =>
       have : x ∈ names t := by
         by_contra hn; rw [ih.mpr hn] at h; cases h
-      simp [names] at this ⊢
-      exact Or.inr this
+      have hx : x ∈ names (y :: t) := by
+        simp only [names, List.map_cons, List.mem_cons] at this ⊢
+        exact Or.inr this
+      constructor
+      · intro hh; cases hh
+      · intro hh; exact absurd hx hh
     | none =>
       have hn := ih.mp h
       by_cases hy : y.name = x
@@ -261,30 +273,29 @@ theorem scatter_gather {V : List Var} (hnd : (names V).Nodup) (x : List ℝ) (f 
   induction h generalizing res with
   | nil => simp [scatter, gather, hasName]
   | @cons v i vs' idx' hvi _ ih =>
-    simp only [gather, List.map_cons, scatter]
-    have := ih (res.set i (f (x.getD i NumAlg.zero))) (by simpa using hres)
-    simp only [gather] at this
+    simp only [gather, List.map_cons, scatter, zero_real]
+    have := ih (res.set i (f (x.getD i 0))) (by simpa using hres)
+    simp only [gather, zero_real] at this
     rw [this]
-    have hi := nameIdx_some hvi
-    obtain ⟨hilt, hin⟩ := hi
+    obtain ⟨hilt, hin⟩ := nameIdx_some hvi
     have hiff := nameIdx_eq_iff hnd hj hvi
+    rw [hasName_cons]
     by_cases hh : hasName V[j].name vs' = true
-    · simp [hh, hasName]
+    · rw [hh]; simp
     · have hh' : hasName V[j].name vs' = false := by simpa using hh
-      simp only [hh', Bool.false_eq_true, ite_false]
+      rw [hh']
+      simp only [Bool.or_false, Bool.false_eq_true, ite_false]
       rw [List.getElem?_set]
       by_cases hij : i = j
       · subst hij
-        have : v.name = V[i].name := hiff.mp rfl
+        have hv : v.name = V[i].name := hiff.mp rfl
         have hlt : i < res.length := by omega
-        simp [hasName, this, hlt]
-        rfl
+        simp [hv, hlt]
       · have hne : ¬ v.name = V[j].name := fun e => hij (hiff.mpr e)
-        simp [hij, hasName, hne, hh']
-        intro e; exact absurd e hne
+        simp [hij, hne]
 
 theorem zeros_getElem? (n j : Nat) (hj : j < n) : (zeros n : List ℝ)[j]? = some 0 := by
-  simp [zeros, hj]; rfl
+  simp [zeros, hj]
 
 /-! ### matrices: entries, `diagM`, `scatterDiag`, `mirrorUpper`, `sanitize2` -/
 
@@ -344,7 +355,7 @@ theorem entry?_diagM (v : List ℝ) (i j : Nat) :
   unfold entry? diagM
   by_cases hi : i < v.length
   · by_cases hj : j < v.length
-    · simp [hi, hj]; rfl
+    · simp [hi, hj]
     · simp [hi, hj]
   · simp [hi]
 
@@ -447,35 +458,35 @@ theorem scatterDiag_gather {V : List Var} (hnd : (names V).Nodup) (x : List ℝ)
   induction h generalizing M with
   | nil => simp [scatterDiag, gather, hasName]
   | @cons v i vs' idx' hvi _ ih =>
-    simp only [gather, List.map_cons, scatterDiag]
+    simp only [gather, List.map_cons, scatterDiag, zero_real]
     obtain ⟨hilt, hin⟩ := nameIdx_some hvi
     have hM' : ∀ a b, a < V.length → b < V.length →
-        (entry? (M.set i ((M.getD i []).set i (f (x.getD i NumAlg.zero)))) a b).isSome := by
+        (entry? (M.set i ((M.getD i []).set i (f (x.getD i 0)))) a b).isSome := by
       intro a b ha hb
       rw [entry?_setDiag]
       split
       · rfl
       · exact hM a b ha hb
     have := ih _ hM'
-    simp only [gather] at this
-    rw [this, entry?_setDiag]
+    simp only [gather, zero_real] at this
+    rw [this, entry?_setDiag, hasName_cons]
     have hiff := nameIdx_eq_iff hnd ha hvi
     have hsome : (entry? M i i).isSome = true := hM i i hilt hilt
     by_cases hab : a = b
     · subst hab
       by_cases hh : hasName V[a].name vs' = true
-      · simp [hh, hasName]
+      · rw [hh]; simp
       · have hh' : hasName V[a].name vs' = false := by simpa using hh
+        rw [hh']
         by_cases hia : i = a
         · subst hia
-          have : v.name = V[i].name := hiff.mp rfl
-          simp [hh', hasName, this, hsome]
-          rfl
+          have hv : v.name = V[i].name := hiff.mp rfl
+          simp [hv, hsome]
         · have hne : ¬ v.name = V[a].name := fun e => hia (hiff.mpr e)
           have hai : ¬ a = i := fun e => hia e.symm
-          simp [hh', hasName, hne, hai]
-    · by_cases hai : a = i ∧ b = i ∧ (entry? M i i).isSome = true
-      · exact absurd (hai.1.trans hai.2.1.symm) hab
-      · simp [hab, hai]
+          simp [hne, hai]
+    · have hai : ¬ (a = i ∧ b = i ∧ (entry? M i i).isSome = true) :=
+        fun hh => hab (hh.1.trans hh.2.1.symm)
+      simp [hab, hai]
 
 end Optyx.Py.Jac
